@@ -52,11 +52,13 @@ import (
 	"os/exec"
 	"path/filepath"
 	"regexp"
+	"runtime"
 	"sort"
 	"strconv"
 	"strings"
 	"syscall"
 	"time"
+	"unsafe"
 
 	"github.com/FollowTheProcess/spok/cache"
 	"github.com/FollowTheProcess/spok/file"
@@ -589,7 +591,39 @@ type jsonResult struct {
 }
 
 // invokeBinary: one process of the real binary; kills are SIGKILLs
-func invokeBinary(sb *sandbox, sel, req []string, force bool, cs crashSpec, fail map[string]bool) invocation {
+const cpuSetWords = 16 // 1024 CPUs
+
+func getAffinity(mask *[cpuSetWords]uint64) bool {
+	_, _, e := syscall.RawSyscall(syscall.SYS_SCHED_GETAFFINITY, 0, uintptr(len(mask)*8), uintptr(unsafe.Pointer(mask)))
+	return e == 0
+}
+
+func setAffinity(mask *[cpuSetWords]uint64) bool {
+	_, _, e := syscall.RawSyscall(syscall.SYS_SCHED_SETAFFINITY, 0, uintptr(len(mask)*8), uintptr(unsafe.Pointer(mask)))
+	return e == 0
+}
+
+// startOnOneCPU starts the command with the CPU affinity of the starting thread narrowed to one CPU (the child inherits
+// it, so its runtime.NumCPU() is 1) and widens it again at once
+func startOnOneCPU(cmd *exec.Cmd) error {
+	runtime.LockOSThread()
+	defer runtime.UnlockOSThread()
+	var old, one [cpuSetWords]uint64
+	if getAffinity(&old) {
+		for i := 0; i < cpuSetWords*64; i++ {
+			if old[i/64]&(1<<(uint(i)%64)) != 0 {
+				one[i/64] = 1 << (uint(i) % 64)
+				break
+			}
+		}
+		if setAffinity(&one) {
+			defer setAffinity(&old)
+		}
+	}
+	return cmd.Start()
+}
+
+func invokeBinary(sb *sandbox, sel, req []string, force bool, cs crashSpec, fail map[string]bool, oneCPU bool) invocation {
 	inv := invocation{crash: "-"}
 	_ = os.WriteFile(sb.log, nil, 0o644)
 	_ = os.Remove(filepath.Join(sb.ctl, "killed"))
@@ -628,7 +662,13 @@ func invokeBinary(sb *sandbox, sel, req []string, force bool, cs crashSpec, fail
 		cmd.Dir = sb.proj
 		cmd.Env = env
 		cmd.Stdout, cmd.Stderr = &so, &se
-		runErr = cmd.Run()
+		if oneCPU {
+			if runErr = startOnOneCPU(cmd); runErr == nil {
+				runErr = cmd.Wait()
+			}
+		} else {
+			runErr = cmd.Run()
+		}
 		timedOut = ctx.Err() != nil
 		cancel()
 		// the shared binary may be being replaced by a concurrent build: it was not started, try again
@@ -886,9 +926,10 @@ func workCase(c string) string {
 				effects[p[1]] = [2]string{p[2], p[3]}
 			}
 		case "r":
-			if len(p) != 4 {
+			if len(p) != 4 && !(len(p) == 5 && p[4] == "c1") {
 				return "BAD-CASE"
 			}
+			oneCPU := len(p) == 5 // binary mode: the process sees ONE cpu (runtime.NumCPU() == 1), as in a small container
 			var req []string
 			for _, ch := range p[1] {
 				req = append(req, string(ch))
@@ -938,7 +979,7 @@ func workCase(c string) string {
 			}
 			var inv invocation
 			if binary {
-				inv = invokeBinary(sb, sel, req, force, cs, fail)
+				inv = invokeBinary(sb, sel, req, force, cs, fail, oneCPU)
 			} else {
 				inv = invokeInProc(text, proj, sel, req, force, cs, fail, onCall)
 			}
@@ -1343,6 +1384,17 @@ func gen(w *bufio.Writer, args map[string]string) {
 	case prop == "C01":
 		binaryKillFamily(w, 80, off)
 		randomHistoriesMode(w, brng, 4, 7, 0.3, 0.2, "b")
+	case prop == "C02":
+		// the same unchanged project run by processes that see different numbers of CPUs (a laptop, then a one-CPU container
+		// sharing the checkout): unchanged inputs are unchanged inputs
+		for _, t := range []int{1, 4, 0} {
+			all := "AB"
+			if t == 4 {
+				all = "C"
+			}
+			fmt.Fprintf(w, "T%db r.%s.0.- r.%s.0.-.c1 r.%s.0.-\n", t, all, all, all)
+			fmt.Fprintf(w, "T%db r.%s.0.-.c1 r.%s.0.- w.0.2 r.%s.0.-.c1 r.%s.0.-\n", t, all, all, all, all)
+		}
 	}
 
 	quickTears := []int{0, 9, 100000}
